@@ -60,6 +60,14 @@ def triple(ctx, program, o, G, sel, warm, tag):
         ctx.count("warm_triples")
     bits = {k: res[k][0] == "ok" for k in ("validate", "keys", "evaluate")}
     W = {"program": program, "options": o, "warm": warm, "outcomes": {k: short(res[k], 120) for k in ("validate", "keys", "evaluate")}, "source": tag}
+    if bits["validate"] and bits["keys"] and not bits["evaluate"] and res["evaluate"][1] == "TypeError":
+        # outside the property's premise (total bodies): a built-in collection constructor (set / dict of an unhashable
+        # option value) is itself partial on this input - confirmed by the independent reference, which fails the same way
+        from ..ref import Ref
+
+        if Ref(program).run(copy.deepcopy(o))[:2] == ("err", "TypeError"):
+            ctx.count("skipped_partial_builtin")
+            return True
     if len(set(bits.values())) != 1:
         W["mechanism"] = mechanism(program, o, bits)
         ctx.violation("operations-disagree", f"validate {short(res['validate'], 70)} / keys {short(res['keys'], 70)} / evaluate {short(res['evaluate'], 70)}", W)
